@@ -141,6 +141,58 @@ def gen_jpeg(ctx):
                 ops.append("jpg %s %s %s %d %d %s %s %d" % (pix, orgs[k % len(orgs)], DEVS[(k // len(orgs)) % 4], w, h, kind, hx, JPEG_BOUND[(pix, kind)]))
     return ops
 
+# ---- reused destination objects: reuse <fmt> <pix> <api> <dev> <pw> <ph> <k> (<w> <h> <hex>){k}
+# previous destination size relative to the file's (w, h): fresh, equal, same width / other height (larger, smaller), same height /
+# other width (larger, smaller), both different (larger, smaller, mixed)
+def prior_sizes(w, h):
+    p = [(0, 0), (w, h), (w, h + 2), (w, h + 5), (w + 3, h), (w + 1, h), (w + 2, h + 3), (w + 1, h - 1 if h > 1 else h + 1)]
+    if h > 1: p += [(w, h - 1), (w, 1)]
+    if w > 1: p += [(w - 1, h), (1, h)]
+    if w > 1 and h > 1: p += [(w - 1, h - 1), (w - 1, h + 2)]
+    return list(dict.fromkeys(p))
+REUSE_SIZES = [(1, 1), (2, 3), (3, 2), (5, 4), (8, 1), (1, 7), (9, 9), (6, 3)]
+REUSE_SEQS = [[(6, 7), (6, 3), (2, 3), (5, 1), (5, 1), (4, 4)], [(3, 3), (3, 5), (7, 5), (7, 2), (1, 2), (1, 1), (9, 1)],
+              [(4, 2), (4, 2), (8, 2), (8, 9), (2, 9), (2, 9), (3, 4)]]
+def reuse_ops(r, fmt, pix, nch, cb, maxv, devs, apis, mk=None, thorough=False):
+    mk = mk or (lambda kind, w, h: content(r, kind, w, h, nch, cb, maxv))
+    ops, n = [], 0
+    def op(pw, ph, steps):
+        nonlocal n; n += 1
+        ops.append("reuse %s %s %s %s %d %d %d %s" % (fmt, pix, apis[n % len(apis)], devs[(n // len(apis)) % len(devs)], pw, ph, len(steps),
+                   " ".join("%d %d %s" % (w, h, mk(KINDS[(n + i) % len(KINDS)], w, h)) for i, (w, h) in enumerate(steps))))
+    for (w, h) in REUSE_SIZES + ([(r.range(1, 16), r.range(1, 16)) for _ in range(8)] if thorough else []):
+        for (pw, ph) in prior_sizes(w, h): op(pw, ph, [(w, h)])
+    for seq in REUSE_SEQS:
+        op(0, 0, seq); op(seq[-1][0], seq[0][1], seq); op(seq[0][0], seq[-1][1] + 1, list(reversed(seq)))
+    for _ in range(12 if thorough else 4):      # random walks in which successive sizes often share exactly one dimension
+        w, h, seq = r.range(1, 9), r.range(1, 9), []
+        for _ in range(r.range(3, 7)):
+            c = r.below(4)
+            if c == 0: w = r.range(1, 9)
+            elif c == 1: h = r.range(1, 9)
+            elif c == 2: w, h = r.range(1, 9), r.range(1, 9)
+            seq.append((w, h))
+        op(r.range(0, 9), r.range(0, 9), seq)
+    return ops
+
+REUSE_PNG = ["gray8", "rgb8", "rgba8", "gray16", "rgb16", "gray1"]
+REUSE_TIFF = [("tiff", "gray8"), ("tiff", "rgb8"), ("tiff", "gray16"), ("tiff", "rgb16"), ("tiff", "gray32f"), ("tiff", "cmyk8"), ("tiff", "gray4"),
+              ("tiff-tile16", "rgb8"), ("tiff-tile16", "gray16"), ("tiff-lzw", "gray8"), ("tiff-tile16-lzw", "cmyk8")]
+def gen_reuse(ctx):
+    r, th = ctx.rng, ctx.thorough()
+    nat, ext, jpg = [], [], []
+    for fmt, pix, nch, sel in NATIVE:
+        nat += reuse_ops(r, fmt, pix, nch, 1, 1 if pix == "gray1" else 255, DEVS, ["ri"] if pix == "gray1" else ["ri", "rc", "ri"], thorough=th)
+    for pix in REUSE_PNG:
+        nch, cb, maxv = PNG[pix][:3]
+        ext += reuse_ops(r, "png", pix, nch, cb, maxv, DEVS, ["ri"] if pix == "gray1" else ["ri", "rc", "ri"], thorough=th)
+    for var, pix in REUSE_TIFF:
+        nch, cb, maxv = TIFF[pix][:3]
+        ext += reuse_ops(r, var, pix, nch, cb, maxv, ["fn", "ss", "of"], ["ri"] if pix in ("gray4", "gray32f") else ["ri", "rc", "ri"], thorough=th)   # gray32f: read_and_convert_image converts the float samples as uint32 (C13's clause, see notes)
+    for pix, (nch, _) in JPEG.items():     # constant images (a different constant each): within one level at quality 100
+        jpg += reuse_ops(r, "jpeg", pix, nch, 1, 255, DEVS, ["ri", "rc", "ri"], mk=lambda kind, w, h, nch=nch: hexbytes(bytes([r.below(256) for _ in range(nch)]) * (w * h)), thorough=th)
+    return nat, ext, jpg
+
 def tree_variants(ctx):
     """which of the proposed fixes the tree under test already carries (selects the model variant, like a translated kernel)"""
     def src(rel):
@@ -155,6 +207,10 @@ def tree_variants(ctx):
 
 def route(op):
     w = op.split()
+    if w[0] == "reuse":
+        if w[1] in ("bmp", "pnm", "targa"): return "n%d" % next(s for f, p, n, s in NATIVE if (f, p) == (w[1], w[2][:5] if w[2].startswith("gray1") else w[2]))
+        if w[1] == "jpeg": return "x8"
+        return "x%d" % (PNG if w[1] == "png" else TIFF)[w[2]][4]
     if w[0] in ("rt", "dsts"): return "n%d" % next(s for f, p, n, s in NATIVE if (f, p) == (w[1], w[2][:5] if w[2].startswith("gray1") else w[2]))
     if w[0] == "jpg": return "x8"
     if w[1] == "png": return "x%d" % PNG[w[2]][4]
@@ -166,6 +222,7 @@ def specs():
 
 def nontrivial(op):
     w = op.split()
+    if w[0] == "reuse": return True
     k = 4 if w[0] == "jpg" else 3 if w[0] == "dsts" else 5
     return int(w[k]) * int(w[k + 1]) > 1
 
@@ -181,17 +238,22 @@ ASSUME = [
 def run(ctx, ops=None):
     import C12_syms
     vlib.regen(ctx, C12_syms.NAMESPACE, C12_syms.SYMS)
-    obligations, discharged = vlib.standard_proof_steps(ctx)
+    obligations, discharged = vlib.standard_proof_steps(ctx, extra_props=["GilVerif.Props.C12Reuse"])
     bins = compile_many(ctx, specs())
     samples, distinct, counts = [], 0, {}
     if ops is None:
         nat, ext, jpg = gen_native(ctx), gen_ext(ctx), gen_jpeg(ctx)
+        rn, rx, rj = gen_reuse(ctx)
+        nat, ext, jpg = nat + rn, ext + rx, jpg + rj
     else:
-        nat = [o for o in ops if o.startswith("rt ") or o.startswith("dsts ")]; ext = [o for o in ops if o.startswith("rtx ")]; jpg = [o for o in ops if o.startswith("jpg ")]
+        isnat = lambda o: o.split()[1] in ("bmp", "pnm", "targa")
+        nat = [o for o in ops if o.startswith("rt ") or o.startswith("dsts ") or (o.startswith("reuse ") and isnat(o))]
+        ext = [o for o in ops if o.startswith("rtx ") or (o.startswith("reuse ") and not isnat(o) and o.split()[1] != "jpeg")]
+        jpg = [o for o in ops if o.startswith("jpg ") or o.startswith("reuse jpeg ")]
     gray1, tiled_cs = tree_variants(ctx)
     if gray1 != "gray1" or tiled_cs: ctx.notes.append("tree under test carries proposed fixes: pnm gray1 variant %s, tiled tiff colour-space order %s" % (gray1, tiled_cs))
     if ops is None or True:
-        nat = [o.replace(" pnm gray1 ", " pnm %s " % gray1, 1) if (o.startswith("rt pnm gray1 ") or o.startswith("dsts pnm gray1 ")) else o for o in nat]
+        nat = [o.replace(" pnm gray1 ", " pnm %s " % gray1, 1) if (o.startswith("rt pnm gray1 ") or o.startswith("dsts pnm gray1 ") or o.startswith("reuse pnm gray1 ")) else o for o in nat]
         if tiled_cs: ext = [(lambda w: " ".join([w[0], w[1] + "-cs"] + w[2:]))(o.split()) if o.startswith("rtx tiff-tile") and "-cs" not in o.split()[1] else o for o in ext]
     args = (ctx.scratch,)
     for label, group, has_model in (("native", nat, True), ("ext", ext, True), ("jpeg", jpg, False)):
@@ -212,6 +274,8 @@ def run(ctx, ops=None):
         rule="op = one write_view + read_image round trip. native (bmp/pnm/targa x every supported pixel type): every w,h in 1..%d x every organisation "
              "(source: the pixel type, planar, the other channel orders incl. the file-native bgr8/bgra8; view kind: whole image, sub-view, (2,2)- and (2,1)-stepped, flipped up-down / left-right, transposed, rotated; gray1: image and bit-offset sub-view) and x every destination kind (file name, FILE*, stringstream, fstream)%s; "
              "written bytes compared byte-for-byte with the model encoder, read-back image with the model decoder, Spec (read back == source) judged on the real output. "
+             "reuse = k (1..7) round trips through ONE destination image object (read_image / read_and_convert_image into the same pixel type) that starts default-constructed, equal-sized, with the same width / another height, "
+             "the same height / another width, or both different (larger and smaller), every native format x pixel type, png (6 pixel types), tiff (7 pixel types, strip / tile16 / lzw), jpeg (3): model = runSeq with the modelled init_image, Spec judged after every read. "
              "png (11 pixel types) / tiff (11 pixel types x strip/tile16/tile32 x none/lzw/deflate/packbits) / jpeg (3): real round trip judged. "
              "non-trivial = image with more than one pixel (distinct op lines counted)" % (hi, "; plus three random organisation/destination/content choices for every w,h in 1..40" if ctx.thorough() else ""),
         samples=samples, distinct_nontrivial=distinct, assumptions=ASSUME, trusted_base=vlib.TRUSTED_BASE + [
